@@ -70,16 +70,18 @@ theorem lxml_soft_agree (I : Iface) (ek : List (List Text × Key)) (hwf : (app I
       softAccepts facts08 factsXml I (ClassDef.toTy C) (.elem ns name [] text children) :=
   lxml_soft_agree_gen facts08 factsXml (app I ek) hwf C hC ns name text children hkey hcf
 
-/-! ### the schema compiles
+/-! ### the schema compiles -/
 
-Full statement (DESIGN §4 C06-1):  `(app I ek).wf = true → (gen (app I ek)).compiles = true`.
-Proved below, per component: every class's complexType (`class_definitions_compile`: base visible and
-complex, chain ends, member types resolve to visible components, occurrence bounds ordered, content
-model deterministic, global element resolves) and every restriction step (`integer_restriction_legal`,
-`string_restriction_legal`, `repaired_generator_restrictions_legal`). Not proved as one statement about
-the list `(gen A).complex` / `(gen A).simple`: that each list entry *is* one of these components
-(membership through `dedupKeys` and the array wrappers) and that the keys are pairwise distinct; both
-are evaluated on every generated universe by T2 (`compiles` vs lxml accepting spyne's files). -/
+/-- **gen_compiles.** For every well-formed application — any number of classes and namespaces,
+    inheritance chains, nested objects, wrapped arrays (of classes, primitives, enums, customised
+    primitives, arrays), restrictions on every primitive — the generated schema passes every check
+    libxml2 applies to this subset: names unique per symbol space, simple and complex names disjoint,
+    every restriction step legal, every complexType legal (base visible + complex, chain finite,
+    member types resolve to visible components, occurrence bounds ordered, deterministic content
+    model), every global element resolves. -/
+theorem gen_compiles (I : Iface) (ek : List (List Text × Key)) (hwf : (app I ek).wf = true) :
+    (gen (app I ek)).compiles = true :=
+  Schema.gen_compiles (app I ek) hwf
 
 /-- every class (message classes included) of a well-formed application gets a complexType
     definition that passes libxml2's checks, and a global element that resolves -/
@@ -130,6 +132,9 @@ example : ({ gt := some 1, ge := some 3, lt := some 10, le := some 12 } : Range)
 
 open SpyneModel.Schema.Example in
 example : (app iface []).wf = true := by decide +kernel
+
+open SpyneModel.Schema.Example in
+example : (gen (app iface [])).compiles = true := by decide +kernel
 
 open SpyneModel.Schema.Example in
 example : cMsg ∈ iface.classes := by simp [iface]
